@@ -93,6 +93,12 @@ func (ex *Exec) discoverLoop(st *State, li *loopInfo) *writeSet {
 		if ws.all {
 			saved.all = true
 		}
+		for g := range ws.ghosts {
+			if saved.ghosts == nil {
+				saved.ghosts = map[string]bool{}
+			}
+			saved.ghosts[g] = true
+		}
 	}
 	return ws
 }
@@ -175,6 +181,12 @@ func (ex *Exec) loopEntry(st *State, li *loopInfo) {
 		if li.ws.all {
 			ex.discover.all = true
 		}
+		for g := range li.ws.ghosts {
+			if ex.discover.ghosts == nil {
+				ex.discover.ghosts = map[string]bool{}
+			}
+			ex.discover.ghosts[g] = true
+		}
 	}
 	if li.spec != nil {
 		for _, g := range li.spec.Ghosts {
@@ -194,6 +206,13 @@ func (ex *Exec) loopEntry(st *State, li *loopInfo) {
 	pre := st.clone()
 	// havoc
 	ex.havocLocals(st, li.ws)
+	// ghost globals and call witnesses that the body (re)assigns — through callee contracts or native models — are
+	// loop-carried state too: forget them at the head (the loop's own ghost variables are handled below)
+	for _, g := range sortedStrings(li.ws.ghosts) {
+		if sc, ok := st.ghost[g].(Sc); ok {
+			st.ghost[g] = Sc{ex.ctx.Fresh("ghost_"+g, sc.T.Sort)}
+		}
+	}
 	for _, it := range st.rangeIt {
 		if it.nextIn != nil && li.blocks[it.nextIn.Block()] {
 			it.visited = ex.ctx.Fresh("rng_visited", arrSort(SInt, SBool)) // keys visited so far: constrained by the invariant
